@@ -298,6 +298,12 @@ VARIANTS = [
     V("twin: intermediate fill sentinels resolved through a shared index", ("C06", "C04"), "", "aggregations.py",
       '        dtypes._get_fill_value(dt, fv)\n        for dt, fv in zip(agg.dtype["intermediate"], agg.fill_value["intermediate"])',
       '        dtypes._get_fill_value(agg.dtype["intermediate"][i], fv) for i, fv in enumerate(agg.fill_value["intermediate"])', expect="silent"),
+    V("finalizer skipped for blueprints with a single intermediate", ("C04",), "R-FINALIZERUN", "core.py",
+      '    if agg.finalize is None:\n        finalized[agg.name] = squeezed["intermediates"][0]',
+      '    if agg.finalize is None or len(squeezed["intermediates"]) == 1:\n        finalized[agg.name] = squeezed["intermediates"][0]', must_mention="finalizer"),
+    V("twin: finalizer test written the other way round", ("C04",), "", "core.py",
+      '    if agg.finalize is None:\n        finalized[agg.name] = squeezed["intermediates"][0]\n    else:\n        finalized[agg.name] = agg.finalize(*squeezed["intermediates"], **agg.finalize_kwargs)',
+      '    if agg.finalize is not None:\n        finalized[agg.name] = agg.finalize(*squeezed["intermediates"], **agg.finalize_kwargs)\n    else:\n        finalized[agg.name] = squeezed["intermediates"][0]', expect="silent"),
     V("dtype promotion memoised with an untyped key", ("C14",), "R-MEMO", "xrdtypes.py", '        dtype = np.result_type(dtype, fill_value)\n    return dtype\n',
       '        dtype = _promote_for_fill_value(dtype, fill_value)\n    return dtype\n\n\n@functools.lru_cache\ndef _promote_for_fill_value(dtype: np.dtype, fill_value) -> np.dtype:\n    return np.result_type(dtype, fill_value)\n', must_mention="typed"),
     V("twin: dtype promotion memoised with typed=True", ("C14",), "", "xrdtypes.py", '        dtype = np.result_type(dtype, fill_value)\n    return dtype\n',
